@@ -1,10 +1,16 @@
 //! Replay drivers over seglog, sierradb-protocol and sierradb (real crates, hooks on).
 use replay_common::*;
 
+mod db;
+mod u02;
 mod u04;
 mod u05;
+mod u12;
 
 fn main() {
-    main_with(&[Driver { name: "U04", search: u04::search, run: u04::run },
-        Driver { name: "U05", search: u05::search, run: u05::run }]);
+    main_with(&[Driver { name: "DB", search: db::search, run: db::run },
+        Driver { name: "U02", search: u02::search, run: u02::run },
+        Driver { name: "U04", search: u04::search, run: u04::run },
+        Driver { name: "U05", search: u05::search, run: u05::run },
+        Driver { name: "U12", search: u12::search, run: u12::run }]);
 }
